@@ -190,6 +190,23 @@ def check_range(loc, circ, s, e, via, gene=None, rec=None):
             idx += 1
             if total - e:
                 subs.append(("tail", bio[idx].location, T[3 * e:3 * total]))
+        elif via == "prepeptide-stop":
+            # as the RiPP modules build it: the location of the whole gene, stop codon included, with leader + core + tail
+            # making up the translation (which has no stop): here the last codon of the location plays the stop
+            total = len(T) // 3 - 1
+            if e > total:
+                return []
+            pre = Prepeptide(loc, "lanthipeptide", "X" * (e - s), "gene", "tool", leader="L" * s, tail="T" * (total - e))
+            bio = pre.to_biopython()
+            subs = []
+            idx = 0
+            if s:
+                subs.append(("leader", bio[idx].location, T[:3 * s]))
+                idx += 1
+            subs.append(("core", bio[idx].location, T[3 * s:3 * e]))
+            idx += 1
+            if total - e:
+                subs.append(("tail", bio[idx].location, T[3 * e:3 * total]))
         elif via == "tta":
             results = TTAResults("rec", 0.7, 0.65)
             feat = Feature(loc, feature_type="CDS")
@@ -250,6 +267,9 @@ def run_shard(shard):
         for s in range(total // 3):
             for e in range(s + 1, total // 3 + 1):
                 vias = ["feature", "prepeptide"]
+                # (fails for every range - finding C09-F1 - so only the shortest and longest cores with no / one leader residue, on every 16th gene structure)
+                if e < total // 3 and s <= 1 and e in (s + 1, total // 3 - 1) and number % 16 == 0:
+                    vias.append("prepeptide-stop")
                 if (s + e) % 2 == 0:
                     vias.append("domain")
                 else:
